@@ -56,11 +56,12 @@ def handleProjQ (t : List String) : String :=
   let perr0 := qerr0.take mHolo; let quat0 := qerr0.drop mHolo
   let o := p.o
   let e := entryNormQ sqrtF o.useInf perr0 tp quat0
-  let early := exceeds o.limit e.normIn || (e.perrIn == 0 || (decide (e.perrIn ≤ o.acc) && !o.force))
-  if early then
-    let orc : OracleQ F := { perr0 := perr0, w := tp, quat0 := quat0, chgA := ob.anyChange, quatA := quatAfter,
-                             perrIt := fun _ => [], perrBack := fun _ => [], chgB := false, quatB := [] }
-    let res := runQ sqrtF o orc
+  -- the MODEL decides which exit is taken: run the skeleton; 0 iterations = an early exit (projection limit / nothing
+  -- to do / quaternions only), whose inputs are all observable, so every field is predicted.  Otherwise the Newton path.
+  let orc : OracleQ F := { perr0 := perr0, w := tp, quat0 := quat0, chgA := ob.anyChange, quatA := quatAfter,
+                           perrIt := fun _ => [], perrBack := fun _ => [], chgB := false, quatB := [] }
+  let res := runQ sqrtF o orc
+  if res.its == 0 then
     fmtResult "projQ" e.normIn e.worst res.status res.its res.anyChange res.limitExceeded res.threw res.normOut
   else if acceptsQ o ob then
     fmtResult "projQ" e.normIn e.worst ob.status ob.its ob.anyChange ob.limitExceeded ob.threw ob.normOut
@@ -75,10 +76,9 @@ def handleProjU (t : List String) : String :=
   let (ob, _) := parseObs (r.drop (2 * m))
   let o := p.o
   let e := normW sqrtF o.useInf (scale uerr0 tpv)
-  let early := exceeds o.limit e.1 || (e.1 == 0 || (decide (e.1 ≤ o.acc) && !o.force))
-  if early then
-    let orc : OracleU F := { verr0 := uerr0, w := tpv, verrIt := fun _ => [], verrBack := fun _ => [] }
-    let res := runU sqrtF o orc
+  let orc : OracleU F := { verr0 := uerr0, w := tpv, verrIt := fun _ => [], verrBack := fun _ => [] }
+  let res := runU sqrtF o orc
+  if res.its == 0 then
     fmtResult "projU" e.1 e.2 res.status res.its res.anyChange res.limitExceeded res.threw res.normOut
   else if acceptsU o ob then
     fmtResult "projU" e.1 e.2 ob.status ob.its ob.anyChange ob.limitExceeded ob.threw ob.normOut
